@@ -2039,3 +2039,194 @@ func c06r14(rc *core.RC) {
 		rc.Unknown("decoder/base64-destinations", token.NoPos, "found %d calls of base64 Decode in the decoder package (confirmed: 2)", n)
 	}
 }
+
+// ---- C06.R15 the nesting depth is raised where a bracket is consumed, nowhere else ----
+
+// The depth parameter counts the brackets of the JSON text that are open, and the limit (10000) is the same number in
+// encoding/json. A decoder that consumes '{' or '[' raises it; a decoder that wraps another one (pointer, embedded
+// member, ,string, interface dispatch) hands it on as it is. A wrapper that also raises it makes every level reached
+// through it cost two: a valid document of 5001 linked-list nodes is refused with "exceeded max depth" where
+// encoding/json decodes it. Obligation: every function of the decoder package that increments its depth parameter
+// also tests a byte against '{' or '[' (a case clause or a comparison).
+func c06r15(rc *core.RC) {
+	p := rc.P
+	pk := p.Pkg("decoder")
+	if pk == nil {
+		rc.Unknown("decoder", token.NoPos, "package not found")
+		return
+	}
+	info := pk.TypesInfo
+	n := 0
+	for _, fd := range p.Funcs("decoder") {
+		if fd.Body == nil {
+			continue
+		}
+		depth := depthParam(p, info, fd)
+		if depth == nil {
+			continue
+		}
+		var inc ast.Node
+		ast.Inspect(fd.Body, func(m ast.Node) bool {
+			switch x := m.(type) {
+			case *ast.IncDecStmt:
+				if x.Tok == token.INC && core.ObjOf(info, x.X) == depth {
+					inc = x
+				}
+			case *ast.AssignStmt:
+				if len(x.Lhs) == 1 && core.ObjOf(info, x.Lhs[0]) == depth && (x.Tok == token.ADD_ASSIGN || x.Tok == token.ASSIGN) {
+					inc = x
+				}
+			}
+			return true
+		})
+		if inc == nil {
+			continue
+		}
+		n++
+		name := p.FuncName(fd)
+		rc.Touch(name)
+		bracket := false
+		ast.Inspect(fd.Body, func(m ast.Node) bool {
+			switch x := m.(type) {
+			case *ast.CaseClause:
+				for _, e := range x.List {
+					if v, ok := core.ConstInt(info, e); ok && (v == '{' || v == '[') {
+						bracket = true
+					}
+				}
+			case *ast.BinaryExpr:
+				if x.Op == token.EQL || x.Op == token.NEQ {
+					for _, e := range []ast.Expr{x.X, x.Y} {
+						if v, ok := core.ConstInt(info, e); ok && (v == '{' || v == '[') {
+							bracket = true
+						}
+					}
+				}
+			}
+			return true
+		})
+		rc.Check(bracket, name+"/depth-raised-at-a-bracket", inc.Pos(), "the function raises the nesting depth and consumes no opening bracket (no test of a byte against '{' or '['): a decoder that wraps another one has to hand the depth on unchanged, or every level reached through it counts twice against the limit of 10000 and valid documents are refused")
+	}
+	if n < 10 {
+		rc.Unknown("decoder/depth-increments", token.NoPos, "found %d functions that raise their depth parameter (confirmed: 12 or more)", n)
+	}
+}
+
+// ---- C06.R16 a jump of the cursor over several bytes follows a look at them ----
+
+// The buffer-mode scanners run on a text that ends with a NUL and have no length test per byte: the byte under the
+// cursor is examined before the cursor passes it (C07.R8 for unit steps). A step of two or more (`cursor += 4` behind
+// null, `cursor += 2` behind a two-byte sequence) is safe because the bytes in between were examined first: by the
+// literal validators (validateNull(buf, cursor)), by reads at cursor+1 …, or by a length test on cursor+k. A step
+// over a byte nobody looked at passes the terminator when that byte is the NUL (`"abc\` + NUL: the next read is out
+// of range). Obligation, for every `cursor += K` with constant K >= 2 on a scan cursor of the decoder package: in the
+// innermost clause (or function body) that holds the statement, in front of it, stands a read at an offset behind the
+// cursor, a call that is handed the text and the cursor, or a comparison of cursor+k with a length.
+func c06r16(rc *core.RC) {
+	p := rc.P
+	pk := p.Pkg("decoder")
+	if pk == nil {
+		rc.Unknown("decoder", token.NoPos, "package not found")
+		return
+	}
+	info := pk.TypesInfo
+	n := 0
+	for _, fd := range p.Funcs("decoder") {
+		if fd.Body == nil {
+			continue
+		}
+		name := p.FuncName(fd)
+		le := &core.LinearEval{Info: info, Pkg: pk, Body: fd.Body}
+		k := 0
+		ast.Inspect(fd.Body, func(m ast.Node) bool {
+			as, ok := m.(*ast.AssignStmt)
+			if !ok || as.Tok != token.ADD_ASSIGN || len(as.Lhs) != 1 || !isCursorExpr(as.Lhs[0]) {
+				return true
+			}
+			step, isC := core.ConstInt(info, as.Rhs[0])
+			if !isC || step < 2 {
+				return true
+			}
+			k++
+			n++
+			rc.Touch(name)
+			cur := types.ExprString(core.Unparen(as.Lhs[0]))
+			// the innermost clause or the function body
+			var region []ast.Stmt = fd.Body.List
+			var conds []ast.Expr
+			path := core.PathTo(fd.Body, as)
+			for _, pn := range path {
+				switch x := pn.(type) {
+				case *ast.CaseClause:
+					region = x.Body
+					conds = nil
+				case *ast.IfStmt:
+					conds = append(conds, x.Cond)
+				}
+			}
+			behindCursor := func(e ast.Expr) bool {
+				l := le.Eval(e)
+				if !l.OK || l.Terms[cur] != 1 {
+					return false
+				}
+				return l.Const >= 1 || len(nonzeroTerms(l)) > 1
+			}
+			looked := false
+			scan := func(nd ast.Node) {
+				ast.Inspect(nd, func(x ast.Node) bool {
+					if x == nil || x.Pos() >= as.Pos() {
+						return false
+					}
+					switch v := x.(type) {
+					case *ast.IndexExpr:
+						if behindCursor(v.Index) {
+							looked = true
+						}
+					case *ast.CallExpr:
+						if core.CalleeName(info, v) == "decoder.char" && len(v.Args) == 2 && behindCursor(v.Args[1]) {
+							looked = true
+						}
+						if f := core.Callee(info, v); f != nil && f.Pkg() == pk.Types {
+							hasCur, hasText := false, false
+							for _, a := range v.Args {
+								if types.ExprString(core.Unparen(a)) == cur {
+									hasCur = true
+								}
+								if t := info.TypeOf(a); t != nil && (t.String() == "[]byte" || t.String() == "unsafe.Pointer") {
+									hasText = true
+								}
+							}
+							if hasCur && hasText {
+								looked = true
+							}
+						}
+					case *ast.BinaryExpr:
+						switch v.Op {
+						case token.GEQ, token.GTR, token.LSS, token.LEQ:
+							for _, side := range []ast.Expr{v.X, v.Y} {
+								l := le.Eval(side)
+								if l.OK && l.Terms[cur] == 1 && (l.Const >= step-1 || len(nonzeroTerms(l)) > 1) {
+									looked = true
+								}
+							}
+						}
+					}
+					return true
+				})
+			}
+			for _, st := range region {
+				if st.Pos() < as.Pos() {
+					scan(st)
+				}
+			}
+			for _, c := range conds {
+				scan(c)
+			}
+			rc.Check(looked, fmt.Sprintf("%s/jump#%d by %d bytes-in-between-examined", name, k, step), as.Pos(), "%s += %d: in front of the jump, in the same clause, nothing looks behind the cursor (no read at %s+1…, no validator handed the text and the cursor, no length test on %s+%d): if one of the bytes stepped over is the terminating NUL the scanner leaves the text (`\"abc\\` + NUL: index out of range)", cur, step, cur, cur, step-1)
+			return true
+		})
+	}
+	if n < 20 {
+		rc.Unknown("decoder/cursor-jumps", token.NoPos, "found %d jumps of a scan cursor by two or more bytes (confirmed: 30)", n)
+	}
+}
